@@ -20,10 +20,10 @@ def generate(tier, seed):
     for name in sources.PROTEINS + sources.SMALL + sources.MULTICONF:
         cases.append({"kind": "file", "file": name, "seed": "%d:%s" % (seed, name),
                       "cost": 80 if name in sources.PROTEINS else 4})
-    n = 400 if tier == "quick" else 3000
+    n = 400 if tier == "quick" else 15000
     for k in range(n):
         cases.append({"kind": "cutout", "seed": "%d:cut:%d" % (seed, k), "cost": 10})
-    n = 40 if tier == "quick" else 600
+    n = 40 if tier == "quick" else 3000
     for k in range(n):
         cases.append({"kind": "subset", "seed": "%d:sub:%d" % (seed, k), "cost": 6})
     return cases
